@@ -3,7 +3,7 @@ use vharness::cli::{quiet_panics, Args};
 fn main() {
     let a = Args::parse();
     quiet_panics();
-    if ["mac", "macreplay", "macmc", "nbwalk", "awalk", "certwalk", "mcwalk", "bufwalk"].contains(&a.cmd.as_str()) {
+    if ["mac", "macreplay", "macmc", "nbwalk", "awalk", "certwalk", "mcwalk", "bufwalk", "mcdata"].contains(&a.cmd.as_str()) {
         vharness::cli::spawn_watchdog();
     }
     // a panic that escapes the recorder itself (not the code under test, whose panics are trace events) is a tool
@@ -27,6 +27,8 @@ fn dispatch(a: &Args) {
         "macreplay" => vharness::macdrv::vh_macreplay(&a),
         "macmc" => vharness::macdrv::vh_macmc(&a),
         "bufwalk" => vharness::macdrv::vh_bufwalk(&a),
+        #[cfg(feature = "mc")]
+        "mcdata" => vharness::macdrv::vh_mcdata(&a),
         "nbwalk" => vharness::macdrv::vh_nbwalk(&a),
         "awalk" => vharness::macdrv::vh_awalk(&a),
         "certwalk" => vharness::macdrv::vh_certwalk(&a),
